@@ -34,6 +34,10 @@ OPS = ["read_shape", "read_size", "read_points", "read_cells", "read_axes", "cop
 def generate(tape, tier="quick"):
     sp = gen_structured(tape, big_coords=True)
     n = tape.weighted([(3, 3), (6, 4), (10, 2)])
+    if tape.chance(1, 300):
+        # a large grid now and then (more than four thousand cells: chunked or cached code paths)
+        sp = gen_structured(tape, dim=2, min_len=66, max_len=80, kinds=("uniform", "rectilinear"))
+        n = 3
     ops = []
     for _ in range(n):
         op = tape.choice(OPS)
